@@ -1079,12 +1079,16 @@ pub fn c15(sc: &Scenario, hx: &Hx, rec: &crate::sched::SchedRecord, chans: &[cra
         if let Some(o) = hx.obs_named("post") {
             let buffered: u64 = o.buffered.iter().map(|b| b.len() as u64).sum();
             let s = &o.stats;
-            if s.hits != buffered + s.access_added + s.access_dropped {
-                let class = if s.hits > buffered + s.access_added + s.access_dropped { "unaccounted" } else { "double-counted" };
+            // successful reads counted from the history itself (not from the CacheHits statistic)
+            let hit_count: u64 = hx.reads.iter().map(|r| r.vals.iter().filter(|x| x.is_some()).count() as u64).sum::<u64>()
+                + hx.final_reads.iter().filter(|f| f.2.is_some()).count() as u64
+                + hx.final_puts.len() as u64 * 0;
+            if hit_count != buffered + s.access_added + s.access_dropped {
+                let class = if hit_count > buffered + s.access_added + s.access_dropped { "unaccounted" } else { "double-counted" };
                 v.fail(
                     "C15",
                     format!("C15/{}/{}", class, ctx),
-                    format!("at quiescence CacheHits {} != buffered {} + AccessAdded {} + AccessDropped {}", s.hits, buffered, s.access_added, s.access_dropped),
+                    format!("at quiescence {} successful reads != buffered {} + AccessAdded {} + AccessDropped {}", hit_count, buffered, s.access_added, s.access_dropped),
                     hx.len,
                 );
             }
